@@ -21,7 +21,7 @@ from .translate import TranslateError, write_if_changed
 VERIF = os.path.dirname(os.path.dirname(os.path.dirname(os.path.abspath(__file__))))
 DEFAULT_REPO = "/repo"
 PY = "/venv/bin/python"
-NCPU = os.cpu_count() or 4
+NCPU = int(os.environ.get("VERIF_JOBS") or os.cpu_count() or 4)
 
 STD_AXIOMS_OK = {
     # axioms declared by Coq's own standard library; allowed if named in the trusted base
@@ -769,7 +769,7 @@ def _run_check(prop, ctx, t_start, replay):
         "wall_s": round(time.time() - t_start, 2),
         "violations": len(violations),
     }
-    if replay is None and not ctx.coq_is_copy:
+    if replay is None and not ctx.coq_is_copy and not os.environ.get("VERIF_BUDGET"):
         os.makedirs(os.path.join(VERIF, "evidence"), exist_ok=True)
         with open(os.path.join(VERIF, "evidence", f"{prop.id}.json"), "w", encoding="utf-8") as f:
             json.dump(ev, f, indent=1, default=str)
@@ -801,7 +801,7 @@ def run_worker(ctx, module, payload, timeout=900, hashseed="0", extra_env=None):
 
 
 def split_chunks(lst_, n):
-    n = max(1, n)
+    n = max(1, min(n, NCPU))
     k = (len(lst_) + n - 1) // n if lst_ else 1
     return [lst_[i : i + k] for i in range(0, len(lst_), k)]
 
